@@ -58,6 +58,40 @@ Proof.
   destruct (n_kind m) eqn:Em; try discriminate. eauto.
 Qed.
 
+(* what the per-call comparison adds to a path theorem about h -> h': when h' is fit for flattening, keeps the
+   original blocks of h and equals the implementation's hierarchy ha up to the order of the node list, the
+   theorem holds for h -> ha *)
+Definition walks_cert (h h' ha : hier) : bool :=
+  xhier_eqb h' ha && flat_okb h' TOP true && orig_keptb h h'.
+
+Lemma walks_cert_sound h h' ha strict (F : Z -> Prop) :
+  (forall n e e' ds tr st, (exists b p, find h n = Some b /\ n_kind b = KOrig p) -> E F e e' ->
+     WTrace h (resolve_flat h) strict n e ds tr st -> WTrace h' (resolve_flat h') strict n e' ds tr st) ->
+  walks_cert h h' ha = true ->
+  forall n e e' ds tr st, (exists b p, find h n = Some b /\ n_kind b = KOrig p) -> E F e e' ->
+     WTrace h (resolve_flat h) strict n e ds tr st -> WTrace ha (resolve_flat ha) strict n e' ds tr st.
+Proof.
+  intros Hthm Hc n e e' ds tr st Hn He W. unfold walks_cert in Hc.
+  apply andb_true_iff in Hc as [Hc Hk]. apply andb_true_iff in Hc as [Heq Hf].
+  destruct Hn as [b [p [Hb Hkb]]].
+  apply (proj1 (compared_equal_same_walks h' ha TOP strict Heq Hf n e' ds tr st (orig_keptb_sound h h' Hk n b p Hb Hkb))).
+  apply (Hthm n e e' ds tr st); eauto.
+Qed.
+
+Lemma ctrace_cert_sound h h' ha strict (F : Z -> Prop) :
+  (forall n e e' ds, (exists b p, find h n = Some b /\ n_kind b = KOrig p) -> E F e e' ->
+     CTrace h (resolve_flat h) strict n e ds -> CTrace h' (resolve_flat h') strict n e' ds) ->
+  walks_cert h h' ha = true ->
+  forall n e e' ds, (exists b p, find h n = Some b /\ n_kind b = KOrig p) -> E F e e' ->
+     CTrace h (resolve_flat h) strict n e ds -> CTrace ha (resolve_flat ha) strict n e' ds.
+Proof.
+  intros Hthm Hc n e e' ds Hn He W. unfold walks_cert in Hc.
+  apply andb_true_iff in Hc as [Hc Hk]. apply andb_true_iff in Hc as [Heq Hf].
+  destruct Hn as [b [p [Hb Hkb]]].
+  apply (proj1 (compared_equal_same_ctrace h' ha TOP strict Heq Hf n e' ds (orig_keptb_sound h h' Hk n b p Hb Hkb))).
+  apply (Hthm n e e' ds); eauto.
+Qed.
+
 (* the unification followed by the early return keeps every walk *)
 Theorem unified_early_keeps_walks h lvl hn v entries headers names_cb hA nlA gA g2 bb b b1 strict :
   insert_cb_h h lvl hn v entries headers names_cb = XOk hA ->
@@ -140,7 +174,7 @@ Definition uni_col_of (h ha : hier) (lvl : name) (loop headers entries exiting e
             let todo := filter (fun x => zmem x exiting || zmem x bbs) (zsort (ua_loop1 a)) in
             if walk_pre_uni h lvl TOP (ua_H a) (ua_v a) entries headers (ua_names_cb a) exits todo isback latch sexit bv bn2 then
               match loop_rotate g1 (ua_H a) headers exits todo true tbl isback latch sexit (ua_v a) bv bn2 with
-              | Ok g1' => if xhier_eqb (write_back h lvl g1') ha then 4 else 2
+              | Ok g1' => if walks_cert h (write_back h lvl g1') ha then 4 else 2
               | _ => 2
               end
             else 2
@@ -190,3 +224,46 @@ Definition rot_col2 (rows : list (list Z)) : Z :=
   let c := rot_col rows in if Z.eqb c 2 then uni_col rows else c.
 
 Definition run_looph3 (rows : list (list Z)) : list Z := run_looph rows ++ [rot_col2 rows].
+
+Lemma uni_step1_spec g0 loop headers entries bn vn a : uni_step1 g0 loop headers entries bn vn = Some a ->
+  insert_cb g0 (ua_H a) (ua_v a) entries headers (ua_names_cb a) C_HEAD = Ok (ua_g1 a).
+Proof.
+  unfold uni_step1. destruct headers as [|h0 [|h1 hr]]; try discriminate.
+  destruct bn as [|hn bn1]; [discriminate|]. destruct vn as [|v vn1]; [discriminate|].
+  destruct (insert_cb g0 hn v entries (h0 :: h1 :: hr) (firstn (arcs_into g0 entries (h0 :: h1 :: hr)) bn1) C_HEAD) as [g1| |] eqn:E; try discriminate.
+  intros [= <-]. cbn. exact E.
+Qed.
+
+(* what the column value 4 means for the hierarchy the implementation produced *)
+Theorem uni_col_sound h ha lvl loop headers entries exiting exits doms bnames vnames strict :
+  uni_col_of h ha lvl loop headers entries exiting exits doms bnames vnames = 4 ->
+  exists v bv, forall n e e' ds tr st,
+    (exists b p, find h n = Some b /\ n_kind b = KOrig p) -> E (LoopPath2.Fu v bv) e e' ->
+    WTrace h (resolve_flat h) strict n e ds tr st -> WTrace ha (resolve_flat ha) strict n e' ds tr st.
+Proof.
+  unfold uni_col_of. destruct (negb (forallb (leafb h) entries)); [discriminate|].
+  destruct (level_graph h lvl) as [g0|] eqn:Hlg; [|discriminate].
+  destruct (uni_step1 g0 loop headers entries bnames vnames) as [a|] eqn:Hs1; [|discriminate]. cbv zeta.
+  destruct (is_early (backedge_blocks_of (ua_g1 a) (ua_loop1 a) headers) exiting) as [bb|].
+  - destruct (insert_cb_h h lvl (ua_H a) (ua_v a) entries headers (ua_names_cb a)) as [hA| |]; try discriminate.
+    destruct (walk_pre_cbh h lvl (ua_H a) (ua_v a) entries headers (ua_names_cb a) && orig_keptb h hA); [|discriminate].
+    destruct (level_graph hA lvl) as [gA|]; [|discriminate]. destruct (Z.eqb (early_col hA ha lvl gA (ua_H a) bb) 3); discriminate.
+  - destruct (ua_bn a) as [|latch bn1]; [discriminate|].
+    destruct (if match exits with _ :: _ :: _ => true | _ => false end
+              then match bn1 with s :: r => (s, r) | [] => (0, []) end else (0, bn1)) as [sexit bn2].
+    destruct (ua_vn a) as [|bv vr]; [discriminate|].
+    destruct (head_tbl (ua_g1 a) (ua_H a) (ua_v a) headers) as [tbl|] eqn:Htbl; [|discriminate].
+    match goal with |- context [walk_pre_uni h lvl TOP (ua_H a) (ua_v a) entries headers (ua_names_cb a) exits ?todo ?isback latch sexit bv bn2] =>
+      set (td := todo); set (ib := isback) end.
+    destruct (walk_pre_uni h lvl TOP (ua_H a) (ua_v a) entries headers (ua_names_cb a) exits td ib latch sexit bv bn2) eqn:Hpre; [|discriminate].
+    destruct (loop_rotate (ua_g1 a) (ua_H a) headers exits td true tbl ib latch sexit (ua_v a) bv bn2) as [g1'| |] eqn:Hrot; try discriminate.
+    destruct (walks_cert h (write_back h lvl g1') ha) eqn:Hc; [|discriminate]. intros _.
+    exists (ua_v a), bv.
+    destruct (unified_rotation_h_keeps_walks_b h lvl TOP (ua_H a) (ua_v a) entries headers (ua_names_cb a) exits td ib latch sexit bv bn2 strict Hpre)
+      as [nl [g0' [g1 [tbl' [g1'' [Hl [HLG [Hcb [Htbl' [Hrot' Hthm]]]]]]]]]].
+    (* the dictionaries the theorem speaks about are the ones computed here *)
+    assert (E0 : g0' = g0) by (unfold level_graph in Hlg; rewrite Hl, HLG in Hlg; congruence). subst g0'.
+    rewrite (uni_step1_spec _ _ _ _ _ _ _ Hs1) in Hcb. injection Hcb as <-.
+    rewrite Htbl in Htbl'. injection Htbl' as <-. rewrite Hrot in Hrot'. injection Hrot' as <-.
+    exact (walks_cert_sound h (write_back h lvl g1') ha strict (LoopPath2.Fu (ua_v a) bv) Hthm Hc).
+Qed.
